@@ -2232,6 +2232,24 @@ fn extract_dml_filters(
     let mut filters = Vec::new();
     let mut allowed_refs = vec![target.clone()];
 
+    // The optimizer replaces an input whose WHERE clause can never be true
+    // (`WHERE false`, `WHERE a = NULL`, `WHERE 1 = 2`, ...) by an empty
+    // relation. Such a statement selects no row. Without this check no filter
+    // would be found below, and the provider reads "no filter" as "every row".
+    let mut root = input.as_ref();
+    loop {
+        root = match root {
+            LogicalPlan::Projection(projection) => projection.input.as_ref(),
+            LogicalPlan::SubqueryAlias(alias) => alias.input.as_ref(),
+            _ => break,
+        };
+    }
+    if let LogicalPlan::EmptyRelation(empty) = root
+        && !empty.produce_one_row
+    {
+        return Ok(vec![Expr::Literal(ScalarValue::Boolean(Some(false)), None)]);
+    }
+
     // First pass: collect any alias references to the target table
     input.apply(|node| {
         if let LogicalPlan::SubqueryAlias(alias) = node
